@@ -179,11 +179,14 @@ class PubSubRun:
     def op_noise(self, a: Actor):
         ch = self.ch
         k = ch.pick("noise.kind", 4)
+        # (a repeated handshake frame may carry other flags than the first one: it is ignored all the same)
+        flip = ch.flag("noise.flip", 1, 2)
+        lg = int(a.is_logger) ^ int(flip)
         if k == 3:
             # a repeated CONNECT_V2 on a connected module (must be ignored, never acknowledged)
-            a.send(C.MT_CONNECT_V2, C.pack_connect_v2(int(a.is_logger), 0, int(not a.unique), a.req_id, a.pid, a.mname),
+            a.send(C.MT_CONNECT_V2, C.pack_connect_v2(lg, int(flip), int(not a.unique) ^ int(flip), a.req_id, a.pid, a.mname),
                    src=a.req_id)
-            self.t(f"{a.name} repeated CONNECT_V2")
+            self.t(f"{a.name} repeated CONNECT_V2" + (" with other flags" if flip else ""))
         elif k == 0:
             a.send(C.MT_MODULE_READY, C.pack_module_ready(7000 + len(a.sent)))
             self.t(f"{a.name} MODULE_READY")
@@ -193,8 +196,8 @@ class PubSubRun:
             self.t(f"{a.name} SET_NAME {nm!r}")
         else:
             # a repeated handshake frame on a connected module (must be ignored, never acked)
-            a.send(C.MT_CONNECT, C.pack_connect(int(a.is_logger), 0), src=a.req_id)
-            self.t(f"{a.name} repeated CONNECT")
+            a.send(C.MT_CONNECT, C.pack_connect(lg, int(flip)), src=a.req_id)
+            self.t(f"{a.name} repeated CONNECT" + (" with other flags" if flip else ""))
 
     def resolve_dest(self, kind):
         ch = self.ch
